@@ -47,6 +47,8 @@ def units(ctx):
            for c in specs.clone_contracts()]
     us += [contract_unit(c, world_setup=specs.setup_definition)
            for c in specs.definition_contracts()]
+    us += [contract_unit(c, world_setup=specs.setup)
+           for c in specs.strip_contracts()]
     from contracts import yaqltypes as _yt
     us += [contract_unit(c, world_setup=_yt.setup)
            for c in _yt.contracts() if 'C05' in c.serves]
